@@ -8,7 +8,7 @@ import shutil
 import tempfile
 
 from ..mon import Reach
-from ..result import Budget, digest
+from ..result import Budget, digest, safe
 from ..stream import corelang_spec
 from ..gen_lang import gen_language, Cfg
 from ..malprint import layout, print_spec, p_expr
@@ -125,7 +125,7 @@ def classify_key(diff, spec):
     return 'compiler.output:differs'
 
 
-def check_case(case, res, count=True):
+def _check_case(case, res, count=True):
     import random
     spec = case['spec']
     rng = random.Random(case['layout_seed'])
@@ -148,6 +148,9 @@ def check_case(case, res, count=True):
     if d:
         return (classify_key(d, spec), 'layout %s: compile(print(spec)) differs from spec at %s' % (case['kind'], d))
     return None
+
+
+check_case = safe(_check_case)
 
 
 def count_kinds(spec, res):
